@@ -67,7 +67,8 @@ MODS = [None, None, {"op": "extra_nested"}, {"op": "mo_aminusb"}, {"op": "gen_co
         # the caller changed a scalar attribute after loading (the dump must not write it back into nested extra dicts)
         {"op": "set", "attr": "energy", "value": -1.2345}, {"op": "set", "attr": "run_type", "value": "opt"},
         {"op": "set", "attr": "title", "value": "changed by the caller"}, {"op": "set", "attr": "lot", "value": "mp2"},
-        {"op": "set", "attr": "obasis_name", "value": "cc-pvdz"}, {"op": "set", "attr": "g_rot", "value": 2.0}]
+        {"op": "set", "attr": "obasis_name", "value": "cc-pvdz"}, {"op": "set", "attr": "g_rot", "value": 2.0},
+        {"op": "mo_aminusb_zero"}, {"op": "conv_signs"}, {"op": "conv_signs"}, {"op": "asym_noise"}, {"op": "asym_noise"}]
 
 _GUARD = None
 
@@ -153,6 +154,35 @@ def caller_edit(data, kind):
         data.one_rdms.clear()
 
 
+RELOAD_FORMATS = ("fchk", "molden", "molekel", "wfx", "wfn")
+
+
+def check_written_file(data, call, disk, path, trace, stats=None):
+    """The written file denotes the same wavefunction: what iodata itself reads back from it has the same electron
+    count and spin polarisation as the object that was passed in."""
+    import iodata
+
+    out = []
+    try:
+        with warnings.catch_warnings():
+            warnings.simplefilter("ignore")
+            back = iodata.load_one(path, fmt=call["fmt"])
+    except Exception:  # noqa: BLE001 - whether every written file can be read back is C01's subject
+        return out
+    if stats is not None:
+        stats.inc("probe.written_files_read_back")
+    try:
+        n0, s0 = data.nelec, data.spinpol
+        n1, s1 = back.nelec, back.spinpol
+    except NotImplementedError:
+        return out
+    if n0 is not None and n1 is not None and abs(n0 - n1) > 1e-4:
+        out.append(_v("written_file_changes_wfn", f"{call['fmt']}: nelec {n0} was written but the file reads back {n1}", trace, f"{call['fmt']}/nelec"))
+    if call["fmt"] != "wfn" and s0 is not None and s1 is not None and abs(s0 - s1) > 1e-4:
+        out.append(_v("written_file_changes_wfn", f"{call['fmt']}: spinpol {s0} was written but the file reads back {s1}", trace, f"{call['fmt']}/spinpol"))
+    return out
+
+
 def do_call(data, call, disk, prefix):
     """One dump / write_input of `data`.  Returns (result|None, exc|None, warnings list)."""
     import iodata
@@ -212,6 +242,8 @@ def run_history(trace, stats=None):
                         out.extend(check_conversion(data, res, trace, call))
                         if stats is not None:
                             stats.inc("probe.conversions_checked")
+            if exc is None and not plan.fired and not call.get("many") and call["fmt"] in RELOAD_FORMATS:
+                out.extend(check_written_file(data, call, disk, path, trace, stats))
             if stats is not None:
                 stats.inc(f"outcome.{et}")
                 for kind, _k in plan.fired:
@@ -303,7 +335,7 @@ def gen_trace(rng):
     recipe, fmts = rng.choice(OBJECTS)
     recipe = copy.deepcopy(recipe)
     mod = rng.choice(MODS)
-    if mod is not None and (mod["op"] in ("extra_nested", "title", "set") or recipe["file"].endswith((".fchk", ".molden.input", ".mkl", ".wfn", ".wfx", ".molden"))):
+    if mod is not None and (mod["op"] in ("extra_nested", "title", "set", "asym_noise") or recipe["file"].endswith((".fchk", ".molden.input", ".mkl", ".wfn", ".wfx", ".molden"))):
         recipe["mods"] = [mod]
     def call():
         fmt = rng.choice(fmts) if rng.random() < 0.85 else rng.choice(sorted(OUTNAME))
